@@ -9,6 +9,14 @@ C16 checker.  One case = one REAL serf node (serf.Create) in one configuration.
   `update <name> <ver>`   eventDelegate.NotifyUpdate                           → same
   `intent <name>`         delegate.NotifyMsg(leave intent, next Lamport time)  → same
   `burst <name> <n> <v0>` n NotifyUpdate in a row, versions v0…               → `emitn <k>` (k = n or 0)
+  `race <name> <mode> <ver>`  TWO goroutines on the same member: A = a memberlist notification, held at
+                          the metrics call that precedes its event send; B = a gossiped leave intent sent
+                          while A is held.  mode `fail-intent`: A = NotifyLeave of a live member (alive→failed),
+                          B makes it failed→left.  mode `update-intent`: A = NotifyUpdate of a failed member.
+                          The status history is A's change then B's → `emit <A's event>,<leave event>` | `emit -`
+  `raceloop <name> <rounds>`  per round: NotifyJoin, then NotifyLeave and a leave intent from two goroutines
+                          with nothing held; → `rounds <r> bad <b> first <kinds of the first bad round>`: a round is
+                          bad when the kinds received for it are not an in-order part of join,failed,leave ending in leave
   `uev <name> <c|n> <id>` Serf.UserEvent                                       → `ok`
   `query <0|1> <id>`      Serf.Query (1 = internal `_serf_ping`)               → `ok`
   `pause` / `resume`      the application stops / resumes reading EventCh      → `ok`
@@ -65,6 +73,8 @@ structure St where
   /-- monitor: what the implementation said it emitted / delivered -/
   emitted : List MEv := []
   received : List MEv := []
+  /-- members whose events were consumed (and judged) inside a `raceloop` op -/
+  exempt : List String := []
 
 instance : Inhabited St := ⟨{}⟩
 
@@ -187,9 +197,12 @@ def monitorStatuses (received : List MEv) (sts : List (String × String)) : Opti
 def recordEmit (s : St) (impl : String) : St × Option (String × String) :=
   if impl == "emit -" then (s, none)
   else if impl.startsWith "emit " then
-    match parseItem (String.ofList (impl.toList.drop 5)) with
-    | some (.member x) => ({ s with emitted := s.emitted ++ [x] }, none)
-    | _ => (s, some ("malformed", impl))
+    match parseItems (String.ofList (impl.toList.drop 5)) with
+    | some l =>
+      if l.all (fun e => match e with | .member _ => true | _ => false) then
+        ({ s with emitted := s.emitted ++ membersOf l }, none)
+      else (s, some ("malformed", impl))
+    | none => (s, some ("malformed", impl))
   else (s, some ("malformed", impl))
 
 def step (s : St) (op : List String) (impl : String) : LineOut St :=
@@ -198,7 +211,37 @@ def step (s : St) (op : List String) (impl : String) : LineOut St :=
     let (s1, out) := emitModel s e
     let (s2, mon) := recordEmit s1 impl
     { state := s2, model := some out, monitor := mon }
+  let memberOp2 (s : St) (e1 e2 : MEv) : LineOut St :=
+    let (s1, _) := emitModel s (some e1)
+    let (s2, _) := emitModel s1 (some e2)
+    let (s3, mon) := recordEmit s2 impl
+    { state := s3, model := some ("emit " ++ showM e1 ++ "," ++ showM e2), monitor := mon }
   match op with
+  | ["race", n, mode, v] =>
+    match stringOfHex? n, v.toNat? with
+    | some name, some ver =>
+      match mode, alookup s.members name with
+      | "fail-intent", some (.alive, cur) =>
+        memberOp2 { s with members := ainsert s.members name (.left, cur) }
+          ⟨.failed, name, recV cur .failed⟩ ⟨.leave, name, recV cur .left⟩
+      | "update-intent", some (.failed, _) =>
+        memberOp2 { s with members := ainsert s.members name (.left, ver) }
+          ⟨.update, name, recV ver .failed⟩ ⟨.leave, name, recV ver .left⟩
+      | "fail-intent", _ => memberOp s none
+      | "update-intent", _ => memberOp s none
+      | _, _ => bad
+    | _, _ => bad
+  | ["raceloop", n, r] =>
+    match stringOfHex? n, r.toNat? with
+    | some name, some rounds =>
+      -- every round ends with the member `left`; the events of the rounds are consumed by the op itself
+      let s1 := { s with members := if rounds == 0 then s.members else ainsert s.members name (.left, rounds),
+                         exempt := name :: s.exempt }
+      let want := s!"rounds {rounds} bad 0 first -"
+      { state := s1, model := some want,
+        monitor := if impl == want then none
+          else some ("race-order", s!"member {hexOfString name}: with a notification and a leave intent in flight together, events arrived out of status order: {impl}") }
+    | _, _ => bad
   | ["cfg", a, b, c] =>
     if s.started then bad else
     match a.toNat?, b.toNat?, c.toNat? with
@@ -290,7 +333,7 @@ def step (s : St) (op : List String) (impl : String) : LineOut St :=
     else if w == "end" then
       let mon := match parseStatuses impl with
         | none => some ("malformed", impl)
-        | some sts => if s.lossy || s.sinceWait != 0 then none else monitorStatuses s.received sts
+        | some sts => if s.lossy || s.sinceWait != 0 then none else monitorStatuses s.received (sts.filter (fun p => !s.exempt.contains p.1))
       { state := s, model := some (statusLine s.members), monitor := mon }
     else bad
   | _ => bad
